@@ -207,3 +207,112 @@ PROPERTY_META["C19"] = dict(
     explanation="Harness-stated contracts on the real conversion, neighbour-step, parser, Display and iterator code, complete over the finite domains (64 squares, 256 bytes, ALL byte strings up to length 3 for squares / 6 for moves, every operation sequence that can exhaust each iterator). Byte strings longer than the longest accepted shape are rejected by a slice-pattern length test (not enumerated).",
     assumptions=["byte strings longer than 3 (square parsers) / 6 (move parser) are covered by the slice-pattern length argument, not by enumeration"],
 )
+
+# =========================================================================== chess-lookup: C08, C09, C17, C04.keys
+_LK = "chess-lookup/src/lib.rs"
+_TBL = "between|bishop_moves|bishop_rays|king_moves|knight_moves|line|rook_moves|rook_rays|zobrist"
+# DESIGN 3.1(a): private table modules whose name equals a public accessor are renamed <m>_tbl (Kani's path
+# resolver otherwise resolves chess_lookup::<m> to the module and refuses to contract / stub the function)
+REWRITES.append(dict(file=_LK, pattern=r"^mod (%s);" % _TBL, repl=r'#[path = "\1.rs"] mod \1_tbl;', min=9))
+REWRITES.append(dict(file=_LK, pattern=r"\b(%s)::(SOLUTIONS|MOVES_MAGIC|RAYS|MOVES|PIECE_ZOBRIST|CASTLE_ZOBRIST|EN_PASSANT_ZOBRIST|TURN_ZOBRIST)\b" % _TBL, repl=r"\1_tbl::\2", min=14))
+host("chess-lookup", _LK, "verif_geom", "spec/geom.rs", pub=True)
+host("chess-lookup", _LK, "kani_verif_lookup", "harness/chess-lookup/lookup.rs")
+def _lk_contract(fn, sig, ens):
+    CONTRACTS.append(dict(file=_LK, anchor=r"^pub fn %s\(%s" % (fn, sig), attrs=["kani::ensures(%s)" % ens]))
+_G = "crate::verif_geom::"
+_CL = "(match color { Color::White => 0u8, Color::Black => 1u8 })"
+_lk_contract("rook_moves", "pos: Pos, all_pieces: BitBoard", "|r: &BitBoard| r.to_u64() == %srook_att(pos as u8, all_pieces.to_u64())" % _G)
+_lk_contract("bishop_moves", "pos: Pos, all_pieces: BitBoard", "|r: &BitBoard| r.to_u64() == %sbishop_att(pos as u8, all_pieces.to_u64())" % _G)
+_lk_contract("knight_moves", "pos: Pos", "|r: &BitBoard| r.to_u64() == %sknight_att(pos as u8)" % _G)
+_lk_contract("king_moves", "pos: Pos", "|r: &BitBoard| r.to_u64() == %sking_att(pos as u8)" % _G)
+_lk_contract("rook_rays", "pos: Pos", "|r: &BitBoard| r.to_u64() == %srook_rays_spec(pos as u8)" % _G)
+_lk_contract("bishop_rays", "pos: Pos", "|r: &BitBoard| r.to_u64() == %sbishop_rays_spec(pos as u8)" % _G)
+_lk_contract("between", "a: Pos, b: Pos", "|r: &BitBoard| r.to_u64() == %sbetween_spec(a as u8, b as u8)" % _G)
+_lk_contract("line", "a: Pos, b: Pos", "|r: &BitBoard| r.to_u64() == %sline_spec(a as u8, b as u8)" % _G)
+_lk_contract("distance", "a: Pos, b: Pos", "|r: &u8| *r == %sdistance_spec(a as u8, b as u8)" % _G)
+_lk_contract("pawn_attacks_moves", "pos: Pos, color: Color", "|r: &BitBoard| r.to_u64() == %spawn_att(pos as u8, %s)" % (_G, _CL))
+_lk_contract("pawn_attacks", "pos: Pos, color: Color, all_pieces: BitBoard", "|r: &BitBoard| r.to_u64() == %spawn_att(pos as u8, %s) & all_pieces.to_u64()" % (_G, _CL))
+_lk_contract("pawn_quiets", "pos: Pos, color: Color, all_pieces: BitBoard", "|r: &BitBoard| r.to_u64() == %spawn_push(pos as u8, %s, all_pieces.to_u64())" % (_G, _CL))
+_lk_contract("pawn_moves", "pos: Pos, color: Color, all_pieces: BitBoard", "|r: &BitBoard| r.to_u64() == (%spawn_push(pos as u8, %s, all_pieces.to_u64()) | (%spawn_att(pos as u8, %s) & all_pieces.to_u64()))" % (_G, _CL, _G, _CL))
+
+_ATTR = "attribute contract (kani::ensures woven onto the fn, discharged by proof_for_contract, reusable by stub_verified)"
+for kind_, fn, spec in (("rook", "rook_moves", "rook_att"), ("bishop", "bishop_moves", "bishop_att")):
+    for gi in range(4):
+        ob("C08.%s.g%d" % (kind_, gi), ["C08", "C07"], "chess-lookup", "kani_verif_lookup::c08_%s_g%d" % (kind_, gi), kind="complete", flags="safety",
+           timeout=1500, mem_gb=6, functions=["chess_lookup::" + fn], packaging=_ATTR,
+           contract="%s(pos, occ) == %s(pos, occ) [ray casting up to and including the first blocker] for squares %d..%d x ALL 2^64 occupancies; table index in range (debug_assert + bounds check)" % (fn, spec, gi * 16, gi * 16 + 15))
+    ob("C08.%s.all" % kind_, ["C08"], "chess-lookup", "kani_verif_lookup::c08_%s_all" % kind_, kind="complete", flags="safety", tier="thorough",
+       timeout=3600, mem_gb=10, functions=["chess_lookup::" + fn], packaging=_ATTR,
+       contract="%s(pos, occ) == %s(pos, occ) for a symbolic square and ALL 2^64 occupancies in one query" % (fn, spec))
+ob("C08.cover", "C08", "chess-lookup", "kani_verif_lookup::c08_cover", kind="cover", flags="safety", timeout=900, mem_gb=6, contract="vacuity guard")
+ob("C08.negtwin", "C08", "chess-lookup", "kani_verif_lookup::c08_negtwin", kind="negtwin", expect="refuted", flags="safety", timeout=900, mem_gb=6, contract="negated twin (d4): must be refuted")
+PROPERTY_META["C08"] = dict(
+    level="proof",
+    explanation="Attribute contracts on the real chess_lookup::rook_moves / bishop_moves (ensures result == ray casting spec), discharged by proof_for_contract for a symbolic square and ALL 2^64 occupancies (quick: 4 square groups per slider in parallel, together covering all 64 squares; thorough: additionally one query). The in-code debug_assert!(index < SOLUTIONS.len()) and the checked table read are obligations of the same harnesses. Strictly stronger than exhausting the <= 2^14 relevant subsets and sampling independence: occupancy is unconstrained.",
+    assumptions=["release builds replace the checked table read by get_unchecked at the index proved in range (cfg!(debug_assertions) branch)",
+                 "generator agreement: the generator's private magic-search `solve` closures are not callable under Kani; table == spec is proved here, generator-solver == spec is by inspection only"],
+)
+
+_c09 = [("knight", "knight_moves", "knight_att(pos)"), ("king", "king_moves", "king_att(pos)"), ("rook_rays", "rook_rays", "rook_att(pos, empty)"),
+        ("bishop_rays", "bishop_rays", "bishop_att(pos, empty)"), ("between", "between", "squares strictly between a and b, empty if not aligned (64x64)"),
+        ("line", "line", "whole line through a and b edge to edge, empty if not aligned (64x64)"), ("distance", "distance", "Chebyshev distance (64x64)"),
+        ("pawn_attacks_moves", "pawn_attacks_moves", "the <= 2 forward-diagonal squares (64 x 2 colours)"),
+        ("pawn_attacks", "pawn_attacks", "forward-diagonal squares that are occupied (64 x 2 x ALL occupancies)"),
+        ("pawn_quiets", "pawn_quiets", "single push if empty; double push from the start rank if both empty (64 x 2 x ALL occupancies)"),
+        ("pawn_moves", "pawn_moves", "pushes | occupied capture squares (64 x 2 x ALL occupancies)")]
+for n, fn, c in _c09:
+    ob("C09." + n, ["C09"], "chess-lookup", "kani_verif_lookup::c09_%s_contract" % n, kind="complete", flags="safety", timeout=900, mem_gb=6,
+       functions=["chess_lookup::" + fn], packaging=_ATTR, contract="%s == %s, no wrap-around (spec walks (file,rank) pairs)" % (fn, c))
+ob("C09.constants", "C09", "chess-lookup", "kani_verif_lookup::c09_constants", kind="complete", flags="safety", timeout=900, mem_gb=6,
+   functions=["PAWN_DOUBLE_SOURCE", "PAWN_DOUBLE_DEST", "BACKRANK", "BACKRANK_BB", "CASTLE_MOVES", "PAWN_DOUBLE_MOVE", "ROOK_CASTLE_QUEENSIDE", "ROOK_CASTLE_KINGSIDE", "CASTLE_ROOK_START", "CASTLE_ROOK_END", "PROMOTION_RANK", "PAWN_DOUBLE_MOVE_SOURCE_RANK", "PAWN_DOUBLE_MOVE_DEST_RANK", "ADJACENT_FILES", "ADJACENT_RANKS", "KINGSIDE_CASTLE_FILES", "QUEENSIDE_CASTLE_FILES", "KINGSIDE_CASTLE_SAFE_FILES", "QUEENSIDE_CASTLE_SAFE_FILES", "Color::enpassant_capture_rank", "Color::enpassant_pawn_rank"],
+   contract="every castling / promotion / double-step / adjacency constant equals its definition in terms of rank and file sets")
+ob("C09.cover", "C09", "chess-lookup", "kani_verif_lookup::c09_cover", kind="cover", flags="safety", timeout=900, mem_gb=6, contract="vacuity guard")
+ob("C09.negtwin", "C09", "chess-lookup", "kani_verif_lookup::c09_negtwin", kind="negtwin", expect="refuted", flags="safety", timeout=900, mem_gb=6, contract="negated twin of between: must be refuted")
+PROPERTY_META["C09"] = dict(
+    level="proof",
+    explanation="Attribute contracts on every geometry accessor of chess-lookup against the ray/step-walking spec, discharged over the complete finite domains (symbolic square(s), colour, and for the pawn helpers ALL 2^64 occupancies rather than the 2^k relevant ones); constants by a ground/symbolic-index obligation. Generator agreement: chess_lookup_generator's per-square functions are contracted against the same spec (C09.gen.*).",
+    assumptions=["generator between()/line() build whole Vecs with iterator chains; they are not verified (tool cost) — table == spec is proved directly instead"],
+)
+
+ob("C04.keys", ["C04"], "chess-lookup", "kani_verif_lookup::c04_keys", kind="complete", flags="safety", timeout=1800, mem_gb=8,
+   functions=["chess_lookup::zobrist", "castle_rights_zobrist", "en_passant_zobrist", "turn_zobrist"],
+   contract="for all flattened indices i != j < 794 (768 piece keys, 16 castling, 8 en-passant, 2 turn; read through the public accessors): key(i) != 0 and key(i) != key(j)")
+
+ob("C17.next", ["C17", "C07"], "chess-lookup", "kani_verif_lookup::c17_next", kind="complete", flags="safety", timeout=1800, mem_gb=8,
+   functions=["<chess_lookup::BookMovesIter as Iterator>::next"],
+   contract="for EVERY index < BOOK_SIZE: no out-of-range get_unchecked, no usize underflow, no panic; Some(mv) => mv.children.index < index, new cursor < index, squares < 64 (=> every traversal from any node terminates and stays in the table)")
+ob("C17.entry", ["C17"], "chess-lookup", "kani_verif_lookup::c17_entry", kind="ground", flags="safety", timeout=1800, mem_gb=8,
+   functions=["INITIAL_BOOOK_MOVES", "EMPTY_BOOK_MOVES", "BookMoves::into_iter"],
+   contract="entry indices are BOOK_SIZE-1 and 0, BOOK.len() == BOOK_SIZE; the empty node yields nothing, the root yields a move")
+ob("C17.negtwin", "C17", "chess-lookup", "kani_verif_lookup::c17_negtwin", kind="negtwin", expect="refuted", flags="safety", timeout=1800, mem_gb=8, contract="negated twin: must be refuted")
+PROPERTY_META["C17"] = dict(
+    level="proof",
+    explanation="Traversal-safety half of C17 only: contract on the real BookMovesIter::next over a symbolic index into the real 87204-entry table (bounds, underflow, strict decrease => termination inside the table). The legality of the 29k book lines ('each move is legal in the position reached, no promotion choice') is data validation through the move generator - a ground computation no contract shortens - and is NOT decided by this check.",
+    assumptions=["legality of every book line is not decided (would be exhaustive execution of 29k nodes through the generator: a different technique)"],
+    level_note="proof of traversal termination/bounds for every table index; the 'every line is a legal game' clause is undecided and stated as such",
+)
+
+# =========================================================================== chess-movegen: shared, C06 validation, C03 pin info
+_MG = "chess-movegen/src/lib.rs"
+host("chess-movegen", _MG, "verif_geom", "spec/geom.rs", pub=True)
+host("chess-movegen", _MG, "verif_rules", "spec/rules.rs", pub=True)
+host("chess-movegen", _MG, "kani_verif_common", "harness/chess-movegen/common.rs")
+host("chess-movegen", _MG, "kani_verif_c06", "harness/chess-movegen/c06.rs")
+SPEC_PROPS.update(["C01", "C02", "C03", "C05", "C06", "C07", "C10"])
+ob("C06.validate.sound", ["C06"], "chess-movegen", "kani_verif_c06::c06_validate_sound", kind="complete", flags="full", timeout=1800, mem_gb=8,
+   functions=["Board::validate", "Board::validate_en_passant", "Board::validate_castle_rights", "RawBoard::has_kings", "RawBoard::get"],
+   contract="{raw is a placement, rights < 16} validate() {Ok => one king per side AND <= 16 per side AND side not to move not in check AND each right only with king and that rook at home AND e.p. marker only on an empty square behind an enemy pawn on its double-step rank}; full symbolic Board")
+ob("C06.validate.complete", ["C06"], "chess-movegen", "kani_verif_c06::c06_validate_complete", kind="complete", flags="full", timeout=1800, mem_gb=8,
+   functions=["Board::validate"], contract="playable(view(self)) => validate() == Ok (no over-rejection: every canonical FEN of a reachable position passes validation)")
+ob("C06.validate.errors", ["C06"], "chess-movegen", "kani_verif_c06::c06_validate_errors", kind="complete", flags="full", timeout=1800, mem_gb=8,
+   functions=["Board::validate"], contract="each error variant is returned only when its clause is violated")
+ob("C06.has_kings", ["C06"], "chess-movegen", "kani_verif_c06::c06_has_kings", kind="complete", flags="full", timeout=900, mem_gb=4,
+   functions=["RawBoard::has_kings"], contract="has_kings() == exactly one king of each colour, all placements")
+ob("C06.build", ["C06", "C03"], "chess-movegen", "kani_verif_c06::c06_build", kind="complete", flags="full", timeout=3600, mem_gb=10,
+   functions=["BoardBuilder::build", "Board::validate", "Board::update_pin_info"],
+   contract="build() == Ok(b) only if validate() accepted the builder's board; b has the same position and hash; b.checkers/pinned == spec; Err(e) == validate()'s error")
+ob("C03.pin_info", ["C03", "C06"], "chess-movegen", "kani_verif_c06::c03_pin_info", kind="complete", flags="full", timeout=3600, mem_gb=10,
+   functions=["Board::update_pin_info", "Board::king_sq", "chess_lookup::between (inlined)"],
+   contract="{one king each, <= 16 per side, side not to move not in check} update_pin_info() {checkers == enemy pieces attacking the mover's king; pinned == sole blockers between the king and an enemy slider on that line; no other field modified}; every placement, both colours")
+ob("C06.cover", "C06", "chess-movegen", "kani_verif_c06::c06_cover", kind="cover", flags="full", timeout=1800, mem_gb=8, contract="vacuity guard: accepted boards with all rights / e.p. for either colour / 16+16 pieces exist")
+ob("C06.negtwin", "C06", "chess-movegen", "kani_verif_c06::c06_negtwin", kind="negtwin", expect="refuted", flags="full", timeout=1800, mem_gb=8, contract="negated twin: must be refuted")
